@@ -22,7 +22,7 @@ import (
 
 func (dec *Decoder) stringToBool(s string) bool {
 	b, err := strconv.ParseBool(s)
-	if err != nil {
+	if err != nil && dec.Error == nil {
 		dec.Error = err
 	}
 	return b
